@@ -914,7 +914,7 @@ def _backend(name, pos, neg, timeout_s):
             except ValueError as e:
                 return 'unknown', 'sat but model is not a value: %s' % e
         return 'unknown', sol.reason_unknown()
-    if name in ('cvc5', 'z3cli'):
+    if name in ('cvc5', 'z3cli', 'z3new'):
         try:
             script = smtlib_query(pos, neg)
         except Unsupported as e:
@@ -922,6 +922,10 @@ def _backend(name, pos, neg, timeout_s):
         if name == 'cvc5':
             argv = [CVC5, '--strings-exp', '--produce-models',
                     '--tlimit=%d' % max(1, int(timeout_s * 1000))]
+        elif name == 'z3new':
+            import shutil as _sh
+            exe = _sh.which('z3-new') or '/usr/local/bin/z3-new'
+            argv = [exe, '-T:%d' % max(1, int(timeout_s + 0.999)), '-smt2']
         else:
             argv = [Z3CLI, '-T:%d' % max(1, int(timeout_s + 0.999)), '-smt2']
         if not _os.path.exists(argv[0]):
